@@ -32,7 +32,7 @@ m = {
     "hooks": {
         "guard": "cfg(kani) — set only by the Kani compiler; the lines carrying it exist only in the per-run scratch copy (add-only overlay), never in /repo",
         "enable": "./check copies /repo's working tree to /var/tmp/verif-<id>-<pid>, injects #[cfg_attr(kani, kani::ensures(..))] above anchored fns and appends #[cfg(kani)] mod lines (diff written to evidence/<id>.overlay.diff), then runs cargo kani / verus there and removes the copy",
-        "baseline_off_cmd": "cd /repo && (cargo nextest run --workspace --no-fail-fast --offline || cargo test --workspace --no-fail-fast --offline)",
+        "baseline_off_cmd": "cd /repo/$(cat /w/out/cargo_root.txt 2>/dev/null) && (cargo nextest run --workspace --no-fail-fast --tool-config-file pb:/w/lib/nextest.toml --profile pb --test-threads 8 --offline || cargo test --workspace --no-fail-fast --offline)  # the pinned baseline command of /root/.vp/BASELINE.json; there is no guard to switch off: /repo carries no hook, only the two unguarded fix: commits",
         "source_commits": [],
         "add_only": True,
     },
